@@ -204,10 +204,17 @@ func (c *LocalActionsCache) readCache(key string) (*ActionMetadata, bool) {
 	return m, ok
 }
 
-func (c *LocalActionsCache) writeCache(key string, val *ActionMetadata) {
+// writeCache remembers the value unless another goroutine remembered one for the same key while
+// this goroutine was reading the file. The value in the cache and whether it was already there are
+// returned so that only the first of them reports what it found.
+func (c *LocalActionsCache) writeCache(key string, val *ActionMetadata) (*ActionMetadata, bool) {
 	c.mu.Lock()
+	defer c.mu.Unlock()
+	if m, ok := c.cache[key]; ok {
+		return m, true
+	}
 	c.cache[key] = val
-	c.mu.Unlock()
+	return val, false
 }
 
 // FindMetadata finds metadata for given spec. The spec should indicate for local action hence it
@@ -240,7 +247,9 @@ func (c *LocalActionsCache) FindMetadata(spec string) (*ActionMetadata, bool, er
 
 	var meta ActionMetadata
 	if err := yaml.Unmarshal(b, &meta); err != nil {
-		c.writeCache(spec, nil) // Remember action was invalid
+		if m, cached := c.writeCache(spec, nil); cached { // Remember action was invalid
+			return m, true, nil
+		}
 		msg := strings.ReplaceAll(err.Error(), "\n", " ")
 		return nil, false, fmt.Errorf("could not parse action metadata in %q: %s", dir, msg)
 	}
@@ -248,8 +257,8 @@ func (c *LocalActionsCache) FindMetadata(spec string) (*ActionMetadata, bool, er
 	meta.dir = dir
 
 	c.debug("New metadata parsed from action %s: %v", dir, &meta)
-	c.writeCache(spec, &meta)
-	return &meta, false, nil
+	m, cached := c.writeCache(spec, &meta)
+	return m, cached, nil
 }
 
 func (c *LocalActionsCache) readLocalActionMetadataFile(dir string) ([]byte, string, bool) {
